@@ -22,9 +22,6 @@ Ltac split_andb :=
 (* ---------- the rule ---------- *)
 Definition npc (c : bctx) : bctx := mkCtx NoParse (insub c) (injoin c) (infmt c).
 
-Definition RuleP (e : pyexpr) : Prop :=
-  no_parsed e = true -> forall c, build c e = build (npc c) (subst (pm c) (injoin c) (infmt c) e).
-
 Definition kidsP (Q : pyexpr -> Prop) (e : pyexpr) : Prop :=
   match e with
   | PDictItem k v => OptP Q k /\ Q v
@@ -32,32 +29,46 @@ Definition kidsP (Q : pyexpr -> Prop) (e : pyexpr) : Prop :=
   | _ => True
   end.
 
+Lemma mapo_rule {B} (f g : pyexpr -> option B) (s : pyexpr -> pyexpr) vs :
+  Forall (fun x => f x = g (s x)) vs -> mapo f vs = mapo g (map s vs).
+Proof. intros H. rewrite mapo_map. apply mapo_ext. exact H. Qed.
+
+Lemma fold_left_gname_app env vs x prev :
+  fold_left (gname_canon env) (vs ++ [x]) prev = gname_canon env (fold_left (gname_canon env) vs prev) x.
+Proof. rewrite fold_left_app. reflexivity. Qed.
+
+Section Rule.
+Variable fx : fixes.
+Variable env : nenv.
+Local Notation build := (C03_expr.build fx env).
+Local Notation subst := (C03_spec.subst fx env).
+Local Notation rok := (rule_ok (fx_litroot fx)).
+
+Definition RuleP (e : pyexpr) : Prop :=
+  rok e = true -> forall c, build c e = build (npc c) (subst (pm c) (injoin c) (infmt c) e).
+
 Definition RuleP' (e : pyexpr) : Prop := RuleP e /\ kidsP RuleP e.
 
-Lemma RuleP_mk e : RuleP e -> no_parsed e = true ->
+Lemma RuleP_mk e : RuleP e -> rok e = true ->
   forall m s j f, build (mkCtx m s j f) e = build (mkCtx NoParse s j f) (subst m j f e).
 Proof. intros H Hn m s j f. exact (H Hn (mkCtx m s j f)). Qed.
 
-Lemma mapo_rule (c c' : bctx) (s : pyexpr -> pyexpr) vs :
-  Forall (fun x => build c x = build c' (s x)) vs -> mapo (build c) vs = mapo (build c') (map s vs).
-Proof. intros H. rewrite mapo_map. apply mapo_ext. exact H. Qed.
-
 Lemma rule_list (vs : list pyexpr) :
-  Forall RuleP' vs -> forallb no_parsed vs = true ->
+  Forall RuleP' vs -> forallb rok vs = true ->
   forall c, Forall (fun x => build c x = build (npc c) (subst (pm c) (injoin c) (infmt c) x)) vs.
 Proof.
-  intros H Hn c. apply forallb_Forall in Hn. revert Hn. induction H as [|x l [Hx _] _ IH]; intros Hn; [constructor|].
+  intros H Hn c. apply forallb_Forall in Hn. revert Hn. induction H as [ | x l [Hx _] _ IH]; intros Hn; [constructor|].
   inversion Hn; subst. constructor; [apply Hx; assumption|apply IH; assumption].
 Qed.
 
 Lemma rule_opt (o : option pyexpr) :
-  OptP RuleP' o -> (match o with Some c => no_parsed c | None => true end) = true ->
+  OptP RuleP' o -> (match o with Some c => rok c | None => true end) = true ->
   forall c, optb (build c) o = optb (build (npc c)) (match o with Some x => Some (subst (pm c) (injoin c) (infmt c) x) | None => None end).
-Proof. destruct o as [x|]; simpl; intros H Hn c; [|reflexivity]. destruct H as [H _]. rewrite (H Hn c). reflexivity. Qed.
+Proof. destruct o as [x | ]; simpl; intros H Hn c; [|reflexivity]. destruct H as [H _]. rewrite (H Hn c). reflexivity. Qed.
 
 (* what the built value of a subscript looks like, read off the source *)
 Lemma build_is_na (c : bctx) (v : pyexpr) (g : gexpr) :
-  pm c = NoParse -> no_parsed v = true -> build c v = Some g -> is_name_or_attr g = is_name_or_attr_src v.
+  pm c = NoParse -> rok v = true -> build c v = Some g -> is_name_or_attr g = is_name_or_attr_src v.
 Proof.
   intros Hm Hn Hb. destruct v; cbn in Hb; try rewrite Hm in Hb; try discriminate;
     repeat match type of Hb with
@@ -68,9 +79,114 @@ Proof.
   - (* PKeyword *) inversion Hb; subst. destruct name; reflexivity.
 Qed.
 
+(* an ExprAttribute always has at least one value *)
+Definition gnonempty (g : gexpr) : Prop := match g with GAttribute [] => False | _ => True end.
+
+Lemma attach_nonempty g a : gnonempty (attach_attr g a).
+Proof. destruct g; try exact I. destruct vs; exact I. Qed.
+
+Lemma build_nonempty : forall e c g, build c e = Some g -> gnonempty g.
+Proof.
+  apply (pyexpr_ind' (fun e => forall c g, build c e = Some g -> gnonempty g)); intros;
+    match goal with Hb : build _ _ = Some _ |- _ =>
+      cbn [C03_expr.build enter keeps_insub mapped node_builder pm insub injoin infmt] in Hb;
+      repeat match type of Hb with
+             | (if ?b then _ else _) = _ => destruct b
+             | match ?x with _ => _ end = _ => destruct x eqn:?
+             end; try discriminate Hb;
+      try (inversion Hb; subst; first [exact I | apply attach_nonempty]; fail)
+    end.
+  - (* PStr: a parsed string annotation *) simpl in H. eapply H. eassumption.
+  - (* PParsed *) eapply H. eassumption.
+  - (* PKeyword *) inversion H0; subst. destruct name; exact I.
+Qed.
+
+Definition is_const_src (e : pyexpr) : bool := match e with PNum _ _ | PConst _ | PStr _ _ _ => true | _ => false end.
+Definition is_gstr (g : gexpr) : bool := match g with GStr _ => true | _ => false end.
+
+Lemma build_is_str (c : bctx) (v : pyexpr) (g : gexpr) :
+  pm c = NoParse -> rok v = true -> build c v = Some g -> is_gstr g = is_const_src v.
+Proof.
+  intros Hm Hn Hb. destruct v; cbn in Hb; try rewrite Hm in Hb; try discriminate;
+    repeat match type of Hb with
+           | (if ?b then _ else _) = _ => destruct b
+           | match ?x with _ => _ end = _ => destruct x eqn:?
+           end; try discriminate; try (inversion Hb; subst; reflexivity).
+  - (* PAttribute *) inversion Hb; subst. unfold attach_attr. destruct g0; reflexivity.
+  - (* PKeyword *) inversion Hb; subst. destruct name; reflexivity.
+Qed.
+
+(* the canonical path _build_subscript computes for the built left part, read off the source:
+   a chain of names resolves through the module's imports; any other chain forgets its root *)
+Definition chain_shape (g : gexpr) : Prop :=
+  match g with GName _ ParScope => True | GAttribute (GName _ ParScope :: _) => True | _ => False end.
+
+Lemma canon_of_build (v : pyexpr) : forall (c : bctx) (g : gexpr),
+  pm c = NoParse -> rok v = true -> build c v = Some g ->
+  match src_canon env v with
+  | Some p => gcanon env g = Some p /\ chain_shape g
+  | None => pure_chain g = false /\ (is_name_or_attr_src v = true -> gcanon env g = quirk_canon v)
+  end.
+Proof.
+  induction v; intros c g Hm Hn Hb;
+    try (cbn [src_canon]; pose proof (build_is_na c _ g Hm Hn Hb) as Hna; cbn [is_name_or_attr_src] in Hna;
+         split; [destruct g as [ |  | [ | [] ?] |  |  |  |  |  |  |  |  |  |  |  |  |  |  |  |  |  |  |  |  |  |  |  |  |  | ]; try reflexivity; discriminate Hna|intros Hx; discriminate Hx]).
+  - (* PName *) cbn in Hb. inversion Hb; subst. cbn. split; [reflexivity|exact I].
+  - (* PAttribute *)
+    cbn [C03_expr.build enter keeps_insub mapped node_builder pm insub injoin infmt] in Hb.
+    destruct (build (mkCtx (pm c) false (injoin c) (infmt c)) v) as [g' | ] eqn:Ev; [|discriminate Hb].
+    inversion Hb; subst g. clear Hb. cbn [rule_ok] in Hn.
+    pose proof (IHv (mkCtx (pm c) false (injoin c) (infmt c)) g' Hm Hn Ev) as IH.
+    pose proof (build_is_na (mkCtx (pm c) false (injoin c) (infmt c)) _ _ Hm Hn Ev) as Hna.
+    pose proof (build_is_str (mkCtx (pm c) false (injoin c) (infmt c)) _ _ Hm Hn Ev) as Hst.
+    cbn [src_canon]. destruct (src_canon env v) as [p | ] eqn:Es.
+    + (* pure chain *) destruct IH as [Hc Hs].
+      destruct g' as [ | n par | vs |  |  |  |  |  |  |  |  |  |  |  |  |  |  |  |  |  |  |  |  |  |  |  |  |  | ]; try contradiction.
+      * destruct par; try contradiction. cbn [attach_attr gcanon fold_left gname_canon gname_path] in *.
+        inversion Hc; subst. split; [reflexivity|exact I].
+      * destruct vs as [ | [ | n0 par0 |  |  |  |  |  |  |  |  |  |  |  |  |  |  |  |  |  |  |  |  |  |  |  |  |  |  | ] vs]; try contradiction.
+        destruct par0; try contradiction.
+        cbn [attach_attr]. cbn [gcanon] in *. rewrite fold_left_gname_app. cbn [gname_canon].
+        assert (Hc' : fold_left (gname_canon env) (GName n0 ParScope :: vs) "" = p) by (injection Hc as H0; exact H0).
+        rewrite Hc'. split; [reflexivity|exact I].
+    + (* the root is not a name *) destruct IH as [Hp Hq]. cbn [is_name_or_attr_src]. split.
+      * destruct g' as [ | n par | vs |  |  |  |  |  |  |  |  |  |  |  |  |  |  |  |  |  |  |  |  |  |  |  |  |  | ]; try reflexivity.
+        -- (* a name is a pure chain *) discriminate Hp.
+        -- pose proof (build_nonempty _ _ _ Ev) as Hne.
+           cbn [attach_attr pure_chain]. destruct vs as [ | [] vs]; try reflexivity; [contradiction|]. cbn [pure_chain] in Hp. discriminate Hp.
+      * intros _. cbn [quirk_canon].
+        destruct v; cbn [is_name_or_attr_src is_const_src] in *;
+          try (destruct g'; try discriminate Hna; try discriminate Hst; reflexivity).
+        -- (* PName *) cbn in Es. discriminate Es.
+        -- (* PAttribute: the chain continues *)
+           specialize (Hq eq_refl).
+           destruct g' as [ |  | vs |  |  |  |  |  |  |  |  |  |  |  |  |  |  |  |  |  |  |  |  |  |  |  |  |  | ]; try discriminate Hna; try discriminate Hp.
+           cbn [attach_attr]. cbn [gcanon] in *. rewrite fold_left_gname_app. cbn [gname_canon].
+           destruct (quirk_canon (PAttribute v attr0)) as [q|]; [|discriminate Hq]. injection Hq as ->. reflexivity.
+Qed.
+
+Lemma left_literal_src (c : bctx) (v : pyexpr) (g : gexpr) :
+  pm c = NoParse -> rok v = true -> (fx_litroot fx || negb (quirk_literal v)) = true -> build c v = Some g ->
+  left_is_literal fx env g = src_is_literal env v.
+Proof.
+  intros Hm Hn Hq Hb. pose proof (canon_of_build v c g Hm Hn Hb) as H.
+  pose proof (build_is_na c v g Hm Hn Hb) as Hna.
+  unfold left_is_literal, src_is_literal. destruct (src_canon env v) as [p | ] eqn:Es.
+  - destruct H as [Hc Hs]. rewrite Hc.
+    assert (Hp : pure_chain g = true).
+    { destruct g as [ | ? [] | [ | [ | ? [] |  |  |  |  |  |  |  |  |  |  |  |  |  |  |  |  |  |  |  |  |  |  |  |  |  |  | ] ?] |  |  |  |  |  |  |  |  |  |  |  |  |  |  |  |  |  |  |  |  |  |  |  |  |  | ]; try contradiction; reflexivity. }
+    rewrite Hp. destruct (fx_litroot fx); apply andb_true_r.
+  - destruct H as [Hp Hq']. rewrite Hp. destruct (fx_litroot fx) eqn:Ef; [apply andb_false_r|]. rewrite andb_true_r.
+    cbn [orb] in Hq. unfold quirk_literal in Hq.
+    destruct (is_name_or_attr_src v) eqn:Ev.
+    + rewrite (Hq' eq_refl). destruct (quirk_canon v); [|reflexivity]. apply negb_true_iff in Hq. exact Hq.
+    + destruct g; try discriminate Hna; reflexivity.
+Qed.
+
 Ltac rule_start :=
   let Hn := fresh "Hn" in let m := fresh "m" in let s := fresh "s" in let j := fresh "j" in let f := fresh "f" in
-  split; [intros Hn [m s j f]; cbn in Hn; split_andb; cbn [build enter keeps_insub subst npc pm insub injoin infmt mapped node_builder] | try exact I].
+  split; [intros Hn [m s j f]; cbn [rule_ok] in Hn; split_andb;
+          cbn [C03_expr.build enter keeps_insub C03_spec.subst npc pm insub injoin infmt mapped node_builder] | try exact I].
 
 Theorem string_rule_all : forall e, RuleP' e.
 Proof.
@@ -79,8 +195,8 @@ Proof.
   - intros; rule_start; reflexivity.
   - intros; rule_start; reflexivity.
   - (* PStr *) intros r raw parsed _. rule_start.
-    destruct (j && negb f) eqn:Ejf; cbn [build enter keeps_insub npc pm insub injoin infmt mapped node_builder]; rewrite ?Ejf; [reflexivity|].
-    destruct m as [|[|]]; cbn; rewrite ?Ejf; try reflexivity.
+    destruct (j && negb f) eqn:Ejf; cbn [C03_expr.build enter keeps_insub npc pm insub injoin infmt mapped node_builder]; rewrite ?Ejf; [reflexivity|].
+    destruct m as [ | [ | ]]; cbn; rewrite ?Ejf; try reflexivity.
     destruct parsed; cbn; rewrite ?Ejf; reflexivity.
   - (* PParsed *) intros p _. split; [intros Hn; discriminate|exact I].
   - (* PAttribute *) intros v a [IH _]. rule_start. rewrite (IH ltac:(assumption) _). reflexivity.
@@ -95,11 +211,11 @@ Proof.
     rewrite (mapo_rule _ _ _ _ (rule_list kws IHk ltac:(assumption) _)). reflexivity.
   - (* PKeyword *) intros n v [IH _]. rule_start. rewrite (IH ltac:(assumption) _). reflexivity.
   - (* PSubscript *) intros v lit sl _ [IHs _]. rule_start.
-    destruct (build (mkCtx NoParse false j f) v) as [lft|] eqn:Ev; [|reflexivity].
-    rewrite (build_is_na (mkCtx NoParse false j f) v lft eq_refl ltac:(assumption) Ev).
-    destruct m as [|l0]; cbn [pm].
+    destruct (build (mkCtx NoParse false j f) v) as [lft | ] eqn:Ev; [|reflexivity].
+    rewrite (left_literal_src (mkCtx NoParse false j f) v lft eq_refl ltac:(assumption) ltac:(assumption) Ev).
+    destruct m as [ | l0]; cbn [pm].
     + rewrite (IHs ltac:(assumption) _). reflexivity.
-    + rewrite (IHs ltac:(assumption) (mkCtx (Parse (l0 || lit && is_name_or_attr_src v)) true j f)). reflexivity.
+    + rewrite (IHs ltac:(assumption) (mkCtx (Parse (l0 || src_is_literal env v)) true j f)). reflexivity.
   - (* PSlice *) intros lo up st IHl IHu IHs. rule_start.
     rewrite (rule_opt lo IHl ltac:(assumption) _), (rule_opt up IHu ltac:(assumption) _), (rule_opt st IHs ltac:(assumption) _).
     destruct lo, up, st; reflexivity.
@@ -109,13 +225,13 @@ Proof.
   - (* PSet *) intros es IH. rule_start. rewrite (mapo_rule _ _ _ _ (rule_list es IH ltac:(assumption) _)). reflexivity.
   - (* PDict *) intros items IH. rule_start. rewrite mapo_map.
     match goal with |- match ?a with _ => _ end = match ?b with _ => _ end => replace a with b; [reflexivity|] end.
-    apply mapo_ext. apply forallb_Forall in Hn. revert Hn. induction IH as [|x l [_ Hx] _ IHl]; intros Hn; [constructor|].
+    apply mapo_ext. apply forallb_Forall in Hn. revert Hn. induction IH as [ | x l [_ Hx] _ IHl]; intros Hn; [constructor|].
     inversion Hn; subst. constructor; [|apply IHl; assumption].
-    destruct x as [| | |rr raw parsed| | | | | | | | | | | | | | |k v| | | | | | | | | | | | | | |]; try reflexivity.
-    + cbn [subst]. destruct (j && negb f); [reflexivity|]. destruct m as [|[|]]; try reflexivity. destruct parsed; reflexivity.
-    + cbn in H1. split_andb. destruct Hx as [Hk Hv].
-      cbn [subst]. unfold npc. cbn [pm insub injoin infmt]. rewrite <- (RuleP_mk _ Hv ltac:(assumption) m false j f).
-      destruct k as [k|]; [|reflexivity]. simpl in Hk. rewrite <- (RuleP_mk _ Hk ltac:(assumption) m false j f). reflexivity.
+    destruct x as [ |   |   | rr raw parsed |   |   |   |   |   |   |   |   |   |   |   |   |   |   | k v |   |   |   |   |   |   |   |   |   |   |   |   |   |   | ]; try reflexivity.
+    + cbn [C03_spec.subst]. destruct (j && negb f); [reflexivity|]. destruct m as [ | [ | ]]; try reflexivity. destruct parsed; reflexivity.
+    + cbn [rule_ok] in H1. split_andb. destruct Hx as [Hk Hv].
+      cbn [C03_spec.subst]. unfold npc. cbn [pm insub injoin infmt]. rewrite <- (RuleP_mk _ Hv ltac:(assumption) m false j f).
+      destruct k as [k | ]; [|reflexivity]. simpl in Hk. rewrite <- (RuleP_mk _ Hk ltac:(assumption) m false j f). reflexivity.
   - (* PDictItem *) intros k v Hk [Hv Hv']. split; [intros _ c; reflexivity|]. split; [|assumption].
     destruct k; simpl in *; [destruct Hk; assumption|exact I].
   - (* PIfExp *) intros b t o [IHb _] [IHt _] [IHo _]. rule_start.
@@ -135,26 +251,28 @@ Proof.
   - (* PComprehension *) intros t it ifs a [IHt _] [IHi _] IH. rule_start. rewrite (IHt ltac:(assumption) _), (IHi ltac:(assumption) _).
     rewrite (mapo_rule _ _ _ _ (rule_list ifs IH ltac:(assumption) _)). reflexivity.
   - (* PJoinedStr *) intros vs IH. rule_start.
-    rewrite (mapo_rule _ _ _ _ (rule_list vs IH ltac:(assumption) _)). reflexivity.
-  - (* PFormattedValue *) intros v conv spec [IH _] _. rule_start. rewrite (IH ltac:(assumption) _). reflexivity.
+    rewrite (mapo_rule _ _ _ _ (rule_list vs IH ltac:(assumption) (mkCtx m false true (if fx_fnest fx then false else f)))). reflexivity.
+  - (* PFormattedValue *) intros v conv spec [IH _] IHsp. rule_start. rewrite (IH ltac:(assumption) _).
+    destruct (fx_fconv fx); [|reflexivity].
+    rewrite (rule_opt spec IHsp ltac:(assumption) (mkCtx m false j false)). destruct spec; reflexivity.
   - (* PYield *) intros v IH. rule_start. rewrite (rule_opt v IH ltac:(assumption) _). destruct v; reflexivity.
   - (* PYieldFrom *) intros v [IH _]. rule_start. rewrite (IH ltac:(assumption) _). reflexivity.
   - (* PAwait *) intros v _. rule_start. reflexivity.
 Qed.
 
 Theorem string_annotation_rule (e : pyexpr) (c : bctx) :
-  no_parsed e = true -> build c e = build (npc c) (subst (pm c) (injoin c) (infmt c) e).
+  rok e = true -> build c e = build (npc c) (subst (pm c) (injoin c) (infmt c) e).
 Proof. intros H. exact (proj1 (string_rule_all e) H c). Qed.
 
 (* strings are data when the flag is off: nothing is substituted *)
 Definition SubstIdP (e : pyexpr) : Prop := forall j f, subst NoParse j f e = e.
 
 Lemma map_id_Forall {A} (g : A -> A) l : Forall (fun x => g x = x) l -> map g l = l.
-Proof. induction 1 as [|x l H _ IH]; simpl; [reflexivity|]. rewrite H, IH. reflexivity. Qed.
+Proof. induction 1 as [ | x l H _ IH]; simpl; [reflexivity|]. rewrite H, IH. reflexivity. Qed.
 
 Theorem subst_noparse_id : forall e, SubstIdP e.
 Proof.
-  apply pyexpr_ind'; unfold SubstIdP; intros; cbn [subst];
+  apply pyexpr_ind'; unfold SubstIdP; intros; cbn [C03_spec.subst];
     repeat match goal with
            | H : forall j f, subst NoParse j f ?x = ?x |- _ => rewrite !H; clear H
            | H : Forall _ ?l |- _ =>
@@ -163,4 +281,12 @@ Proof.
            end; try reflexivity.
   - destruct (j && negb f); reflexivity.
   - destruct (j && negb f); reflexivity.
+  - destruct (fx_fconv fx); reflexivity.
+  - destruct (fx_fconv fx); reflexivity.
 Qed.
+
+End Rule.
+
+(* with the repair of F14 in the tree the hypothesis of the rule is just "a source tree" *)
+Lemma rule_ok_no_parsed e : rule_ok true e = no_parsed e.
+Proof. reflexivity. Qed.
